@@ -2,7 +2,7 @@
 import vlib
 
 PRE = """From Coq Require Import ZArith QArith String Ascii List.
-From PT Require Import Str Dec Py Loaders Formula FormulaMachine AtomEnv Pyparse TableEnv Printer C01Check C13Check.
+From PT Require Import Str Dec Py Loaders Formula FormulaMachine AtomEnv Pyparse TableEnv Printer C01Check C13Check C13Roundtrip.
 Import ListNotations. Open Scope string_scope."""
 CT = "c13case"
 
@@ -49,7 +49,14 @@ def run(ctx):
         if not data["direct_fails"]:
             ctx.report("C13:" + kind, "%s no longer checks: %s" % (kind, msg), dict(obligation=kind, detail=msg), found_input=False)
         return
-    n_ok, fails, logs, _ = vlib.run_shards("C13", PRE, CT, cases, "check_all", shard=130 if quick else 400)
+    shard = 130 if quick else 400
+    n_ok, fails, logs, extra = vlib.run_shards("C13", PRE, CT, cases, "check_all", shard=shard,
+                                               extra_eval="Eval vm_compute in printable_all cases.")
+    import re
+    mp = re.search(r"= (\d+)%N", extra[0]) if extra else None
+    if mp:
+        ctx.cov["printable_hypothesis"] = "C13_roundtrip's hypothesis `printable` holds for %s of the first %d cases" % (
+            mp.group(1), min(shard, len(cases)))
     for l in logs:
         ctx.note(l)
     ctx.cov["model_agreed"] = n_ok
